@@ -87,6 +87,9 @@ func NativeType(column *ColumnSchema) reflect.Type {
 
 // OvsToNativeAtomic returns the native type of the basic ovs type
 func OvsToNativeAtomic(basicType string, ovsElem interface{}) (interface{}, error) {
+	if ovsElem == nil {
+		return nil, NewErrWrongType("OvsToNativeAtomic", basicType, ovsElem)
+	}
 	switch basicType {
 	case TypeReal, TypeString, TypeBoolean:
 		naType := NativeTypeFromAtomic(basicType)
